@@ -444,7 +444,33 @@ theorem step_metrics_other {op : MOp} {s s' : MState} {x : MRet} (h : step op s 
     split at h
     · simp only [Option.some.injEq, Prod.mk.injEq] at h; rw [← h.2]
     · cases h
-  | matchRanks r1 r2 => simp only [step, Option.some.injEq, Prod.mk.injEq] at h; rw [← h.2]; rfl
+  | matchRanks r1 r2 =>
+    simp only [step, Option.map_eq_some_iff] at h
+    obtain ⟨s1, h1, h2⟩ := h
+    cases h2
+    unfold mMatchRanks at h1
+    simp only at h1
+    have hsrc : ∀ rank (a : MState) (src : String) (b : MState), lateSrc rank a src = some b → b.metrics = a.metrics := by
+      intro rank a src b hb
+      unfold lateSrc at hb
+      split at hb
+      · cases hb
+      · split at hb
+        · cases hb; rfl
+        · exact (startAll_core hb).met
+    have hrank : ∀ (a : MState) (rank : String) (b : MState), lateRank a rank = some b → b.metrics = a.metrics := by
+      intro a rank b hb
+      unfold lateRank at hb
+      split at hb
+      · cases hb
+      · split at hb
+        · exact foldlM_preserve (lateSrc rank) (fun x => x.metrics = a.metrics)
+            (fun x y z hp hz => (hsrc rank x y z hz).trans hp) _ a b rfl hb
+        · cases hb; rfl
+    split at h1
+    · exact foldlM_preserve lateRank (fun x => x.metrics = s.metrics)
+        (fun x y z hp hz => (hrank x y z hz).trans hp) _ (matchClosure r1 r2 s).2 _ rfl h1
+    · cases h1; rfl
   | trace rank ty consumable =>
     simp only [step, Option.map_eq_some_iff] at h
     obtain ⟨s1, h1, h2⟩ := h
